@@ -242,19 +242,24 @@ def check_case(root, spec, pp, cfg, out, armed):
             with util.watchdog(5):
                 # the same rule whichever way the root is given: root_dir, dir_fd, working directory
                 how = ci % 3
+                # ... and whether or not an exclusion that excludes nothing is supplied (keyword or inline)
+                xk = [{}, {'exclude': 'zz_nothing*'}, {}, {'exclude': ['zz_nothing', 'zz_other/**']}][(ci // 3) % 4]
+                pats = [text, '!zz_nothing*'] if (ci // 3) % 4 == 2 else text
+                xf = G.NEGATE if (ci // 3) % 4 == 2 else 0
                 if how == 0:
-                    m = G.globmatch(c, text, flags=fl | G.REALPATH, root_dir=root)
+                    m = G.globmatch(c, pats, flags=fl | G.REALPATH | xf, root_dir=root, **xk)
                 elif how == 1:
-                    m = G.globmatch(c, text, flags=fl | G.REALPATH, dir_fd=fd)
+                    m = G.globmatch(c, pats, flags=fl | G.REALPATH | xf, dir_fd=fd, **xk)
                 else:
                     with util.chdir(root):
-                        m = G.globmatch(c, text, flags=fl | G.REALPATH)
+                        m = G.globmatch(c, pats, flags=fl | G.REALPATH | xf, **xk)
         except util.HarnessBudget:
             continue
         out.evaluations += 1
         if m and forced_through_link(comps, lf, segs, full=True, icase=icase):
             cs = dict(case, problem='globmatch(REALPATH) accepted a path below a symlink traversed by `**`', name=c)
             cs['root_given_as'] = ['root_dir', 'dir_fd', 'cwd'][how]
+            cs['exclusion_form'] = ['none', 'exclude=str', 'inline', 'exclude=list'][(ci // 3) % 4]
             if k17 and 'K17' in armed:
                 out.known_hit('K17', cs)
             else:
